@@ -34,7 +34,7 @@ class Fn:
 
     def __init__(self, cname, tu, name, flt=None, select=None, kinds=('CXXMethodDecl', 'FunctionDecl', 'CXXConstructorDecl'),
                  self_struct=None, types=(), calls=(), members=(), hooks=(), stmt_hooks=(), aggregates=(),
-                 ret=None, lambda_index=None, extra_params=(), post=None, uf_float=True, opaque=(), lambda_select=None, dtors=()):
+                 ret=None, lambda_index=None, extra_params=(), post=None, uf_float=True, opaque=(), lambda_select=None, dtors=(), captures=False):
         self.lambda_select = lambda_select
         self.uf_float = uf_float
         self.opaque = opaque
@@ -53,6 +53,7 @@ class Fn:
         self.lambda_index = lambda_index
         self.lambda_select = lambda_select   # generic lambdas: picks the operator() specialisation (default: the first)
         self.extra_params = extra_params
+        self.captures = captures  # lambda: derive the extra parameters from the capture list (by-reference -> pointer)
         self.post = post  # optional text transformation of the emitted C (must be mechanical; recorded)
 
     def emit(self):
@@ -70,12 +71,34 @@ class Fn:
                 inst = [m for m in inst if self.lambda_select(m)]
             if not inst:
                 raise ExtractionError(f'{self.cname}: lambda without an instantiated operator()')
+            if self.captures and len(inst) > 1:
+                raise ExtractionError(f'{self.cname}: generic lambda with {len(inst)} instantiations')
             d = inst[0]
+        elif self.captures:
+            raise ExtractionError(f'{self.cname}: captures=True without lambda_index')
         P = cxx2c.Printer(self.cname, self.types, self.calls, self.members, self.hooks, self.self_struct,
                           self.aggregates, self.stmt_hooks, self.uf_float, opaque=self.opaque, dtors=self.dtors)
         P.default_file = loc.get('file') or loc.get('expansionLoc', {}).get('file') or loc.get('spellingLoc', {}).get('file') or astload.resolve_tu(self.tu)
         P.field_init = lambda cls, fld: astload.field_initializer(self.tu, cls, fld)
-        text = P.function(d, self.ret, self.extra_params)
+        extra = list(self.extra_params)
+        if self.captures:
+            # captured variables become parameters: by-reference captures are pointers (uses print as (*name), so writes
+            # through them are visible to the caller), by-copy captures are values; `this` is the self parameter
+            for c in astload.lambda_captures(lam):
+                if c['this']:
+                    if not self.self_struct:
+                        raise ExtractionError(f'{self.cname}: lambda captures this but no self_struct is given')
+                    continue
+                vt = c['var_type'].get('qualType', '').rstrip()
+                ct = P.ctype(c['var_type'])
+                if c['byref']:
+                    if not vt.endswith('&'):
+                        ct += '*'
+                        P.byref_captures.add(c['id'])
+                elif vt.endswith('&'):
+                    raise ExtractionError(f'{self.cname}: by-copy capture of the reference {c["name"]} is not supported')
+                extra.append(f'{ct} {c["name"]}')
+        text = P.function(d, self.ret, extra)
         if self.post:
             text = self.post(text)
         self.printer = P
@@ -135,6 +158,18 @@ class Target:
             info['dropped_statements'] += [f'{f.tu}:{ln}' for ln in P.dropped] + [f'{f.tu}: {e}' for e in P.erased]
             if f.cname == self.enforce:
                 enforced_printer = P
+        # a prelude may declare an extracted function ahead of its definition (stubs that call back into extracted code):
+        # such a hand-written prototype must match the extracted signature exactly (goto-cc tolerates a mismatch)
+        try:
+            ptext = open(os.path.join(VERIF, self.prelude)).read()
+        except OSError:
+            ptext = ''
+        norm = lambda ps: [re.sub(r'\s+', ' ', re.sub(r'\b\w+$', '', x.strip())).strip() for x in ps]
+        for f in self.fns:
+            for m in re.finditer(r'(?m)^(?:static[ \t]+)?(?:struct[ \t]+)?\w+[ \t\*]+' + re.escape(f.cname) + r'\s*\(([^;{()]*)\)\s*;', ptext):
+                if norm(m.group(1).split(',')) != norm(f.printer.params):
+                    raise ExtractionError(f'{self.name}: prototype of {f.cname} in {self.prelude} does not match the extracted '
+                                          f'signature {f.printer.signature}')
         harness = self.harness
         if harness is None:
             if enforced_printer is None:
